@@ -349,6 +349,28 @@ def work(payload, skip, report):
     return acc
 
 
+def replay(case):
+    if "input" not in case:
+        return None
+    ctx = new_ctx()
+    ctx.add_page("Template:e", 10, "")
+    out = []
+    try:
+        ctx.start_page(case.get("title", "Tt"))
+        try:
+            with time_limit(10.0):
+                r = ctx.expand(case["input"])
+            if not isinstance(r, str):
+                out.append({"oracle": "returns_str", "observed": type(r).__name__, "expected": "str"})
+        except Timeout:
+            out.append({"oracle": "returns_in_time", "observed": "no result within 10 s", "expected": "returns"})
+        except Exception as e:
+            out.append({"oracle": "total", "observed": type(e).__name__ + ": " + str(e)[:100], "expected": "in-band"})
+    finally:
+        close_ctx(ctx)
+    return out
+
+
 def main(run):
     from wikitextprocessor.parserfns import PARSER_FUNCTIONS
 
